@@ -36,6 +36,7 @@ void inst(gray8_view_t const& a, gray8_view_t const& b, rgb8_view_t const& c, rg
   (void)extend_row(a, 2, boundary_option::extend_zero); (void)extend_col(a, 2, boundary_option::extend_constant); (void)extend_boundary(a, 2, boundary_option::extend_padded);
   (void)extend_boundary(c, 1, boundary_option::extend_constant);
 }
+void inst2(rgb8_view_t const& c, bgr32f_view_t const& x){ detail::kernel_2d<float> k2(3, 1, 1); detail::convolve_2d(c, k2, x); }
 '''
 
 
@@ -49,7 +50,7 @@ def run(rep):
                    "^boost::gil::(view_multiplies_scalar|correlate_pixels_n|correlate_pixels_k)$",
                    "^boost::gil::reverse_kernel$", "^boost::gil::detail::kernel_1d_adaptor::(left_size|right_size)$",
                    "^boost::gil::detail::kernel_(1d|2d)_adaptor::(center_x|center_y|center|upper_size|lower_size|kernel_2d_adaptor|operator=)$",
-                   "^boost::gil::(extend_row|extend_col|extend_boundary)$", "^boost::gil::detail::extend_row_impl$"])
+                   "^boost::gil::(extend_row|extend_col|extend_boundary)$", "^boost::gil::detail::extend_row_impl$", "^boost::gil::detail::physical_channel_index$", "^boost::gil::detail::__nth_channel_view_basic::make$"])
     fns = d["functions"]
     spec = json.load(open(os.path.join(C.SPEC, "c15_convolve.json")))
     rep.units.append("c15_driver.cpp: %d instantiated functions" % len(fns))
@@ -110,6 +111,13 @@ def run(rep):
     rep.floor("obligations:V2", 3)
     kernel_2d_rule(rep, fns)
     extend_rule(rep, fns)
+    rep.rule("V8 convolve_2d (instantiated rgb8 -> bgr32f): the per-channel calls pair the source and destination channels of the same colour "
+             "(nth_channel_view counts in memory order: one layout on both sides, or detail::physical_channel_index<own view>(k) on each side)")
+    R.channel_pairing(rep, fns, "V8-channel-pairing", ("boost::gil::detail::convolve_2d",), "obligations:V8")
+    rep.floor("obligations:V8", 3)
+    rep.rule("V9 convolve_2d: every nth_channel_view call (which forms a reference to pixel (0,0)) is dominated by the test that the source view has pixels")
+    R.nonempty_guard(rep, fns, "V9-nonempty", ("boost::gil::detail::convolve_2d",), "obligations:V9")
+    rep.floor("obligations:V9", 1)
     # ---- V3 correlate_rows_impl
     rep.rule("V3 correlate_rows_impl: options exhaustive; buffer sizes; correlator ranges; destination fills only under output_zero; padding sources")
     n_impl = 0
